@@ -250,6 +250,36 @@ def gen_value(rnd, t, pool, hashable=False, maxlen=4):
     raise ValueError(name)
 
 
+def mutate_nested(rnd, v, t, pool):
+    """Edit, in place, the first list / set / dict found inside v (through
+    tuples, variants, list elements and dict values). True if one was."""
+    name, kids = t
+    try:
+        if name == "sequence" and isinstance(v, list):
+            v.append(gen_value(rnd, kids[0], pool))
+            return True
+        if name == "set" and isinstance(v, set):
+            n0 = len(v)
+            for _ in range(8):
+                v.add(gen_value(rnd, kids[0], pool, True))
+                if len(v) > n0:
+                    return True
+            return False
+        if name == "mapping" and isinstance(v, dict):
+            v[gen_value(rnd, kids[0], pool, True)] = gen_value(
+                rnd, kids[1], pool)
+            return True
+    except TypeError:
+        return False
+    if name == "tuple" and isinstance(v, tuple):
+        order = list(range(len(kids)))
+        rnd.shuffle(order)
+        return any(mutate_nested(rnd, v[i], kids[i], pool) for i in order)
+    if name == "variant" and hasattr(v, "val"):
+        return mutate_nested(rnd, v.val, kids[v.index], pool)
+    return False
+
+
 def shape_errors(v, t, gt, path="$"):
     """Python-level container classes of a decoded value."""
     name, kids = t
